@@ -24,7 +24,8 @@ def run():
                    [dict(maxw=2, faults=2, conflicts=1, grants=True), dict(maxw=3, faults=1, conflicts=0, grants=False)]
         for vi, v in enumerate(variants):
             cfg = U.write_cfg("Upstream_c02_%s_%d.cfg" % (pol, vi), policy=pol, sizes=(1,), zero=False, reliable=True, dups=0, acks=2,
-                              writers=("W1",), flushers=("F1",) if (pol == "none" and v["maxw"] == 2) else (), invs=U.INV_C02, netloss=True, **v)
+                              writers=("W1",), flushers=("F1",) if (pol == "none" and v["maxw"] == 2) else (), invs=U.INV_C02,
+                              netloss=v["maxw"] == 2, **v)      # chunks lost in flight only in the 2-write variants (25 M states / 10 min with 3 writes)
             ctx.l1("Upstream", cfg, timeout=2400)
             os.remove(os.path.join(SPEC, cfg))
         gcfg = U.write_cfg("Upstream_c02_gen_%s.cfg" % pol, policy=pol, maxw=4, sizes=(1, 2), zero=False, reliable=True, faults=2,
@@ -43,9 +44,9 @@ def run():
             scs.append(s)
     # liveness (TLC, fairness of every library step, of the redial and of a broker that answers the resume and acknowledges what the
     # client waits for): once failures have stopped, every cut chunk reaches the broker - unless the stream was reported closed
-    live = [("immediate", 2, 1, 0, ())] if quick else [("immediate", 2, 1, 0, ()), ("none", 2, 1, 0, ("F1",)), ("immediate", 2, 2, 1, ())]
+    live = [("immediate", 2, 1, 0, ())] if quick else [("immediate", 2, 1, 0, ()), ("none", 2, 1, 0, ("F1",)), ("immediate", 2, 1, 1, ())]     # (2 writes, 2 failures, conflict) took 20 min: too close to any budget
     for pol, mw, nf, conf, fl in live:
-        cfg = U.write_cfg("Upstream_c02_live_%s_%d_%d.cfg" % (pol, mw, nf), policy=pol, maxw=mw, sizes=(1,), zero=False, reliable=True, faults=nf,
+        cfg = U.write_cfg("Upstream_c02_live_%s_%d_%d_%d.cfg" % (pol, mw, nf, conf), policy=pol, maxw=mw, sizes=(1,), zero=False, reliable=True, faults=nf,
                           dups=0, acks=2, grants=False, conflicts=conf, writers=("W1",), flushers=fl, invs=U.INV_C02, live=True, netloss=True)
         ctx.l1("Upstream", cfg, timeout=3000)
         os.remove(os.path.join(SPEC, cfg))
